@@ -5,6 +5,7 @@ import (
 	"io"
 	"runtime"
 	"sync"
+	"time"
 )
 
 // Draw is one Read served by crypto/rand.Reader while a tap was installed.
@@ -25,6 +26,10 @@ type Tap struct {
 	// a Read asking for want bytes delivers Short(want) of them (at least one)
 	// with a nil error, as io.Reader allows.
 	Short func(want int) int
+	// Delay, when set, makes the tap a healthy but slow generator: the Read
+	// with sequence number seq returns its (full, correct) bytes only after
+	// Delay(seq).
+	Delay func(seq int) time.Duration
 }
 
 // InstallTap swaps crypto/rand.Reader; src == nil means "tee the real CSPRNG".
@@ -49,6 +54,11 @@ func (t *Tap) Read(p []byte) (int, error) {
 		}
 		if k < len(p) {
 			p = p[:k]
+		}
+	}
+	if t.Delay != nil {
+		if d := t.Delay(len(t.draws)); d > 0 {
+			time.Sleep(d)
 		}
 	}
 	n, err := io.ReadFull(t.src, p)
